@@ -2211,13 +2211,22 @@ static void compile_stmt(CG *cg, ASTNode *node) {
                        loop->breaks[i].instr_offset, loop_end);
         }
 
+        /* The loop variable is scoped to the loop */
+        cg->locals[var_slot].name = "";
+
         cg->loop_depth--;
         break;
     }
 
     case AST_BLOCK: {
+        uint16_t scope_start = cg->local_count;
         for (int i = 0; i < node->as.block.count; i++) {
             compile_stmt(cg, node->as.block.statements[i]);
+        }
+        /* Leave the block: its names stop shadowing outer ones.  Slots stay allocated
+         * (local_count sizes the frame), only the names are retired from lookup. */
+        for (uint16_t i = scope_start; i < cg->local_count; i++) {
+            cg->locals[i].name = "";
         }
         break;
     }
